@@ -398,6 +398,15 @@ func RunSeq(sc SeqScenario) (evs []Ev, inconclusive string) {
 				}
 				nEmit++
 				s.Emit(row)
+				if sc.Hold != "" && nEmit == 1 {
+					// the goroutine that is to be held takes the FIRST row and parks with it (it holds no reference to the input
+					// buffer there); only then does the producer run ahead
+					hold := sc.Hold
+					in.WaitFor(2*time.Second, func() bool { return in.NWaiting(hold) > 0 })
+					in.mu.Lock()
+					in.Stuck = false // not reaching the gate is not a fault of the engine: the burst simply runs without the hold
+					in.mu.Unlock()
+				}
 				if !sc.Burst && !in.WaitFor(T, quiet) {
 					if ps := cl.Panics(); len(ps) > 0 { // the engine lost the row / batch in a panic of its own goroutine: a verdict, not a timeout
 						in.Log(Ev{"tr": sc.Tr, "e": "panic", "where": "engine goroutine (recovered)", "msg": ps[0]})
